@@ -4,21 +4,24 @@ EXTENDS Meta, Json, IOUtils
 Traces == ndJsonDeserialize(IOEnv.TRACE_FILE)
 VARIABLES tid, verdict
 Proj(i) == [time |-> i.time, grid |-> i.grid, units |-> i.units, mask |-> i.mask, foo |-> i.foo]
+(* the two concrete forms of "no masked cell" are the same mask *)
+Obs(i) == [Proj(i) EXCEPT !.mask = NormMask(@)]
+Exp(i) == [i EXCEPT !.mask = NormMask(@)]
 Verdict(t) ==
   LET c == t.case o == t.obs IN
   IF c.two THEN
      LET e == Exchange2(Proj(c.po), Proj(c.ci), Proj(c.c2)) IN
      IF e.res # "ok" THEN (IF o.res = "err:" \o e.res THEN "ok" ELSE "meta-outcome@1")
      ELSE IF o.res # "ok" THEN "meta-outcome@1"
-     ELSE IF Proj(o.out) # e.out THEN "meta-filled-output@1"
-     ELSE IF Proj(o.inp) # e.inp1 \/ Proj(o.inp2) # e.inp2 THEN "meta-filled-input@1"
+     ELSE IF Obs(o.out) # Exp(e.out) THEN "meta-filled-output@1"
+     ELSE IF Obs(o.inp) # Exp(e.inp1) \/ Obs(o.inp2) # Exp(e.inp2) THEN "meta-filled-input@1"
      ELSE "ok"
   ELSE
      LET e == Exchange(Proj(c.po), Proj(c.ci)) IN
      IF e.res # "ok" THEN (IF o.res = "err:" \o e.res THEN "ok" ELSE "meta-outcome@1")
      ELSE IF o.res # "ok" THEN "meta-outcome@1"
-     ELSE IF Proj(o.out) # e.out THEN "meta-filled-output@1"
-     ELSE IF Proj(o.inp) # e.inp THEN "meta-filled-input@1"
+     ELSE IF Obs(o.out) # Exp(e.out) THEN "meta-filled-output@1"
+     ELSE IF Obs(o.inp) # Exp(e.inp) THEN "meta-filled-input@1"
      ELSE "ok"
 Init == tid \in 1..Len(Traces) /\ verdict = Verdict(Traces[tid])
 Next == FALSE /\ UNCHANGED <<tid, verdict>>
